@@ -43,6 +43,9 @@ def rand_id(rng):
         return str(rng.choice([0, 1, 2, 9, 10, 11, 99, 100, 2 ** 32, 2 ** 64 - 1, 2 ** 64 - 2, 2 ** 63]))
     if r < 0.55:      # same stem, digit tails whose numeric and ASCII orders disagree (SemVer compares alphanumerics in ASCII order)
         return rng.choice(["rc9", "rc10", "a1b", "a9", "a10", "beta11", "beta100", "build7", "build12", "rc1", "rc01", "x-9", "x-10", "9a", "10a"])
+    if r < 0.7:       # the words zerv itself gives a meaning to elsewhere (labels of its own SemVer shape): in precedence they are plain identifiers;
+                      # and identifiers around '-' (0x2D sorts below '.', which must never matter: identifiers are compared one by one)
+        return rng.choice(["post", "dev", "epoch", "alpha", "beta", "rc", "Post", "postfix", "pos", "post1", "alpha-beta", "alpha-", "-", "--", "-alpha", "a-", "a-b", "rc-x", "x-"])
     return "".join(rng.choice("012abAB-zZ") for _ in range(rng.randint(1, 4))) or "a"
 
 
